@@ -39,14 +39,15 @@ func indexFromPeeringTrustBundle(ptb *pbpeering.PeeringTrustBundle) ([]byte, err
 }
 
 func updatePeeringTableIndexes(tx WriteTxn, idx uint64, _ string) error {
-	if err := tx.Insert(tableIndex, &IndexEntry{Key: tablePeering, Value: idx}); err != nil {
+	// Restore feeds rows in ID order, not index order: never move the table index backwards.
+	if err := indexUpdateMaxTxn(tx, idx, tablePeering); err != nil {
 		return fmt.Errorf("failed updating table index: %w", err)
 	}
 	return nil
 }
 
 func updatePeeringTrustBundlesTableIndexes(tx WriteTxn, idx uint64, _ string) error {
-	if err := tx.Insert(tableIndex, &IndexEntry{Key: tablePeeringTrustBundles, Value: idx}); err != nil {
+	if err := indexUpdateMaxTxn(tx, idx, tablePeeringTrustBundles); err != nil {
 		return fmt.Errorf("failed updating table index: %w", err)
 	}
 	return nil
